@@ -562,8 +562,8 @@ def report_hangs(ctx, stats):
                    "signature": "bronson-extract_minmax-livelock-routing-leaf" if VARIANTS[c["variant"]][2] == "bronson" else None}, open(path, "w"), indent=1)
         out.append(path)
     if hangs:
-        print("LIVENESS-FINDING: property=%s %d case(s) never finished (not a %s violation) first=%s" % (ctx.id, len(hangs), ctx.id, out[0]), flush=True)
-    ctx.coverage["liveness_findings"] = {"cases_that_never_finished": len(hangs), "replays": out}
+        print("LIVENESS-OBSERVATION: property=%s %d case(s) never finished (not a %s violation) first=%s" % (ctx.id, len(hangs), ctx.id, out[0]), flush=True)
+    ctx.coverage["liveness_observations"] = {"cases_that_never_finished": len(hangs), "replays": out}
 
 
 def load_corpus(pid):
